@@ -64,12 +64,21 @@ func c20PsqlCall(entry int, s string) []string {
 		gdb.DeleteGraph(s)
 	case 14:
 		gdb.Graph(s)
+	case 15:
+		g.AddVertex([]*gdbi.Vertex{{ID: s, Label: s, Data: map[string]interface{}{"k": s}}})
+	case 16:
+		g.AddVertex([]*gdbi.Vertex{{ID: s, Label: "L", Data: map[string]interface{}{}}, {ID: "b", Label: s, Data: map[string]interface{}{s: 1.0}}})
+	case 17:
+		g.AddEdge([]*gdbi.Edge{{ID: s, Label: s, From: s, To: s, Data: map[string]interface{}{"k": s}}})
+	case 18:
+		g.AddEdge([]*gdbi.Edge{{ID: "e", Label: "L", From: s, To: "b"}, {ID: s, Label: "L", From: "a", To: s}})
 	}
 	return c20Log
 }
 
 var c20PsqlEntries = []string{"DelVertex", "DelEdge", "GetVertex(load)", "GetVertex", "GetEdge", "VertexLabelScan", "GetVertexChannel", "GetOutChannel(id)", "GetOutChannel(label)",
-	"GetInChannel", "GetOutEdgeChannel", "GetInEdgeChannel", "AddGraph", "DeleteGraph", "Graph"}
+	"GetInChannel", "GetOutEdgeChannel", "GetInEdgeChannel", "AddGraph", "DeleteGraph", "Graph",
+	"AddVertex(one)", "AddVertex(two)", "AddEdge(one)", "AddEdge(two)"}
 
 // VerifH_C20_psql: whatever bytes the client string holds, the statement text has
 // the structure it has for a benign string of the same length.
@@ -80,7 +89,7 @@ func VerifH_C20_psql() {
 	vAssume(len(s) > 0)
 	got := c20PsqlCall(entry, s)
 	ref := c20PsqlCall(entry, c20Benign(len(s)))
-	vKnownFor("C20/psql-interpolates-client-strings", entry != 12, "C20.psql.same-structure")
+	vKnownFor("C20/psql-interpolates-client-strings", entry != 12 && entry < 15, "C20.psql.same-structure")
 	vReach("c20.psql.called")
 	if entry == 12 && len(got) == 0 {
 		return // AddGraph refused the name before any statement was built
